@@ -80,7 +80,14 @@ def run_textfile_impl(case, scratch):
     async def main(loop):
         src = Stream.from_textfile(path, poll_interval=0.5, delimiter=case["delim"], from_end=case["from_end"],
                                    asynchronous=True, loop=IOLoop.current())
-        src.sink(got.append)
+        state = {"failed": False}
+
+        def consume(rec):
+            got.append(rec)
+            if case.get("fail_rec") is not None and not state["failed"] and len(got) - 1 == case["fail_rec"]:
+                state["failed"] = True
+                raise ValueError("consumer failed on this record")
+        src.sink(consume)
         src.start()
         await vloop.settle(loop)
         snaps.append(list(got))
@@ -113,33 +120,52 @@ def run_textfile_impl(case, scratch):
 
 
 def reads_of(case):
-    """The reads the source performs: an initial one at start, then one per poll."""
-    reads = []
-    pending = "" if case["from_end"] else case["pre"]
-    reads.append(pending)   # read at start()
-    pending = ""
-    per_op = []
-    stopped = False
+    """The reads the source performs (an initial one at start, one per poll while a loop is running, one at each
+    restart) and, per op, the index of the read it triggered.  With `fail_rec`, the consumer raises on that delivered
+    record (0-based): the polling loop dies there and only comes back with stop() + start()."""
+    reads, per_op, fails = [], [], {}
+    d = case["delim"]
+    st = {"pending": "" if case["from_end"] else case["pre"], "buffer": "", "delivered": 0, "alive": True, "stopped": False, "failed": False}
+
+    def do_read():
+        chunk, st["pending"] = st["pending"], ""
+        reads.append(chunk)
+        if chunk:
+            parts = (st["buffer"] + chunk).split(d)
+            st["buffer"] = parts.pop(-1)
+            n = len(parts)
+            fr = case.get("fail_rec")
+            if fr is not None and not st["failed"] and st["delivered"] <= fr < st["delivered"] + n:
+                fails[len(reads) - 1] = fr - st["delivered"]
+                st["delivered"] = fr + 1
+                st["failed"] = True
+                st["alive"] = False
+            else:
+                st["delivered"] += n
+        return len(reads) - 1
+    do_read()
     for op in case["ops"]:
         if op[0] == "w":
-            pending += op[1]
+            st["pending"] += op[1]
             per_op.append(None)
         elif op[0] == "stop":
-            stopped = True
+            st["stopped"] = True
             per_op.append(None)
         elif op[0] == "start":
-            # the generator always lets a poll interval pass between stop and start, so the old loop has exited:
-            # start() begins a new one, which reads at once
-            stopped = False
-            reads.append(pending)
-            per_op.append(len(reads) - 1)
-            pending = ""
-        elif stopped:
-            per_op.append(None)         # nobody polls a stopped source
+            if st["stopped"]:
+                st["stopped"] = False
+                st["alive"] = True
+                per_op.append(do_read())
+            else:
+                per_op.append(None)      # start() on a source that is not stopped does nothing (even if its loop died)
+        elif st["stopped"]:
+            st["alive"] = False          # a sleeping loop wakes up, sees `stopped` and exits
+            per_op.append(None)
+        elif st["alive"]:
+            per_op.append(do_read())
         else:
-            reads.append(pending)
-            per_op.append(len(reads) - 1)
-            pending = ""
+            per_op.append(None)
+    case["_fails"] = fails
     return reads, per_op
 
 
@@ -208,7 +234,14 @@ def gen_text_case(rng):
         i = rng.randrange(1, len(ops) - 1)
         j = rng.randrange(i, len(ops) - 1)
         ops = ops[:i] + [["stop"]] + [o for o in ops[i:j] if o[0] == "w"] + [["p"], ["start"]] + ops[j:]
-    return {"kind": "textfile", "delim": d, "from_end": rng.random() < 0.4, "pre": pre, "ops": ops}
+    case = {"kind": "textfile", "delim": d, "from_end": rng.random() < 0.4, "pre": pre, "ops": ops}
+    if rng.random() < 0.2:
+        nrec = max(1, len(text.split(d)) - 1)
+        case["fail_rec"] = rng.randrange(0, nrec)
+        i = rng.randrange(1, len(ops) + 1)
+        extra = gen_text(rng, alpha, d, 6) + d
+        case["ops"] = ops[:i] + [["stop"], ["p"], ["start"]] + ops[i:] + [["stop"], ["p"], ["start"], ["w", extra], ["p"]]
+    return case
 
 
 def gen_files_case(rng):
@@ -246,7 +279,14 @@ def model_lines(case):
         return [{"op": "reset", "model": "textfile", "delim": case["delim"]}, {"op": "chunk", "s": case["text"]}]
     if case["kind"] == "textfile":
         reads, _ = reads_of(case)
-        return [{"op": "reset", "model": "textfile", "delim": case["delim"]}] + [{"op": "chunk", "s": r} for r in reads]
+        fails = case.pop("_fails", {})
+        lines = [{"op": "reset", "model": "textfile", "delim": case["delim"]}]
+        for i, r in enumerate(reads):
+            line = {"op": "chunk", "s": r}
+            if i in fails:
+                line["fail_at"] = fails[i]
+            lines.append(line)
+        return lines
     if case["kind"] == "filenames":
         lines = [{"op": "reset", "model": "filenames"}]
         for _i, pres, fail in file_polls(case):
@@ -316,14 +356,27 @@ def check_case(ctx, case, answers, scratch):
             reads, per_op = reads_of(case)
             d = case["delim"]
             # oracle at every poll point and at the end
+            case.pop("_fails", None)
             whole = reads[0]
-            err = oracle_text(d, whole, snaps[0])
-            i = 0
-            while err is None and i < len(case["ops"]):
-                if per_op[i] is not None:
-                    whole += reads[per_op[i]]
-                err = oracle_text(d, whole, snaps[i + 1])
-                i += 1
+            err = None
+            if case.get("fail_rec") is None:
+                err = oracle_text(d, whole, snaps[0])
+                i = 0
+                while err is None and i < len(case["ops"]):
+                    if per_op[i] is not None:
+                        whole += reads[per_op[i]]
+                    err = oracle_text(d, whole, snaps[i + 1])
+                    i += 1
+            else:
+                # a consumer raised once: no exactly-once claim for the rest of that read, but never a record twice and
+                # never out of order: the deliveries are a subsequence of the records of the text, and everything read
+                # after the restart is delivered
+                whole = "".join(reads)
+                recs = [p + d for p in whole.split(d)[:-1]]
+                it = iter(recs)
+                final = snaps[-1]
+                if not all(any(r == x for x in it) for r in final):
+                    err = "after a consumer failure and a restart the deliveries %r are not an in-order duplicate-free selection of the records %r" % (final, recs)
             nontrivial = len(snaps[-1]) >= 1 and any(len(r) and r.count(d) == 0 for r in reads)
             ctx.case(case, nontrivial=nontrivial)
             if len(d) > 1:
@@ -379,6 +432,8 @@ def check_case(ctx, case, answers, scratch):
 
 
 CORPUS = [
+    {"kind": "textfile", "delim": "\n", "from_end": False, "pre": "", "fail_rec": 1,
+     "ops": [["w", "a\nb\nc\n"], ["p"], ["stop"], ["p"], ["start"], ["w", "d\n"], ["p"]]},
     {"kind": "textfile", "delim": "\n", "from_end": True, "pre": "old\n", "ops": [["w", "r1\npar"], ["p"], ["stop"], ["w", "tial\nr3\n"], ["p"], ["start"], ["w", "r4\n"], ["p"]]},
     {"kind": "filenames", "style": "dir", "pre": [1, 2, 3], "fail_on": 2, "ops": [["p"], ["stop"], ["p"], ["start"], ["c", [4]], ["p"]]},
     {"kind": "textfile", "delim": "aa", "from_end": False, "pre": "", "ops": [["w", "xa"], ["p"], ["w", "a"], ["p"], ["w", "yaaa"], ["p"], ["p"], ["w", "az"], ["p"]]},
